@@ -14,6 +14,9 @@ Suspender.action is a two-state step on `aux.done` at entry:
  (B) not done ("running"): trace is segue(aux) ; recur(aux) with NO need evaluated ("regardless of its conditions");
      completed => exitAll(aux) ; reactivate(framer): actives is active.outline again and no enter/renter call is in
      the trace ("resume ... without being re-entered"), returns None; else returns the auxiliary, framer untouched.
+How the auxiliary completes: a `done` act of one of its frames sets aux.done during enterAll / segue / recur; the
+callee contracts of enterAll / recur do not model that (acts write no framer field), so aux.done is taken as an
+arbitrary truth value after those calls (weaker than the callee contracts: every completion branch is explored).
 Suspender.deactivize (exit act of the main frame, added by Suspender._resolve): not done => exitAll + release
 ("if its main frame is exited first, the auxiliary is exited with it"); done => nothing.
 
@@ -136,11 +139,9 @@ _C_ACTION = contract(FA, "Suspender.action", "C10,C05,C08",
          ensures=[
              "result is None or result is aux",
              # ---------------- (A) not running
-             # refused (a need falsy / owned by another frame / start check refused): nothing entered, nothing changed
-             "implies(%s and ct_len() <= %s + 1, result is None and %s and %s)" % (WAS_DONE, N, UNCH_FR, UNCH_AUX),
-             # entered and run once, completed in that first run: fully exited and released, NOTHING suspended
-             "implies(%s and result is None, %s and implies(not aux.original, aux.main is old(aux.main)) and %s)"
-             % (ENTERED, EXITED, UNCH_FR),
+             # falsy result (refused, or entered, run once and completed in that first run): the framer is untouched -
+             # NOTHING is suspended - and the auxiliary is not running (which of the two: trace clauses below)
+             "implies(%s and result is None, aux.done and %s)" % (WAS_DONE, UNCH_FR),
              # entered and run once, still running: the frames below main are cut off (C05: actives is main.head),
              # the auxiliary belongs to main iff it is an original, the result is truthy
              "implies(%s and result is not None, result is aux and not aux.done and %s.actives is main.head and "
@@ -154,7 +155,13 @@ _C_ACTION = contract(FA, "Suspender.action", "C10,C05,C08",
              "implies(not %s and result is not None, result is aux and not aux.done and %s)" % (WAS_DONE, UNCH_FR),
          ],
          local_ensures=[
-             # ---------------- (A) the needs are evaluated in order, stopping at the first falsy one
+             # ---------------- (A) refused (a need falsy / owned by another frame / start check refused): nothing
+             # entered, nothing changed
+             "implies(%s and ct_len() <= %s + 1, result is None and %s and %s)" % (WAS_DONE, N, UNCH_FR, UNCH_AUX),
+             # entered and run once, completed in that first run: fully exited and released, nothing suspended
+             "implies(%s and result is None, %s and implies(not aux.original, aux.main is old(aux.main)) and %s)"
+             % (ENTERED, EXITED, UNCH_FR),
+             # the needs are evaluated in order, stopping at the first falsy one
              "implies(%s, forall(lambda j: implies(0 <= j and j < ct_len() and j < %s, ct_is(j, 'act', needs[j]))))"
              % (WAS_DONE, N),
              "implies(%s, forall(lambda j: implies(0 <= j and j < %s and j < ct_len() - 1, ct_res(j) == 1)))" % (WAS_DONE, N),
